@@ -34,8 +34,9 @@ pub(super) fn add_months(date: NaiveDate, delta_months: i32) -> Option<NaiveDate
         return Some(date);
     }
 
-    let total_months = date.year() * 12 + (date.month0() as i32) + delta_months;
-    let new_year = total_months.div_euclid(12);
+    let total_months =
+        i64::from(date.year()) * 12 + i64::from(date.month0()) + i64::from(delta_months);
+    let new_year = i32::try_from(total_months.div_euclid(12)).ok()?;
     let new_month = (total_months.rem_euclid(12) + 1) as u32;
 
     let mut day = date.day();
